@@ -846,6 +846,12 @@ def _in_gap(sc: dict, kind: str, name: str) -> bool:
     return any(o[1] in ops and o[2] == name and any(g[0] <= o[0] <= g[1] for g in gaps[meta]) for o in sc["timeline"])
 
 
+def _died_unnoticed(r: dict, pair: tuple, t: float) -> bool:
+    """The watcher of `pair` ended on its own (its task was done) and no adjust_tasks pass has STARTED since (up to t)."""
+    ds = [d[2] for d in r.get("deaths", []) if (d[0], d[1]) == tuple(pair) and d[2] <= t]
+    return bool(ds) and not any(p[0] >= max(ds) and p[0] <= t for p in r.get("passes", []))
+
+
 def _recreated(sc: dict, name: str) -> bool:
     ops = sorted((o for o in sc["timeline"] if o[1] in ("add_ns", "del_ns") and o[2] == name), key=lambda x: x[0])
     seen_del = False
@@ -891,7 +897,7 @@ def oracle_operator(sc: dict, r: dict) -> list[tuple[str, dict]]:
                 fails.append((f"t={c['t']}: served pair(s) {missing} have no watch: the namespace was deleted and re-created, and the "
                               "DELETED of the old incarnation was applied after the ADDED of the new one", F7_SIG))
             elif not extra and not dup and missing and all(m[0] in r.get("not_found", []) for m in missing) and \
-                    not any(p[0] >= max(r["not_found_at"][m[0]] for m in missing) and p[1] <= c["t"] for p in r.get("passes", [])):
+                    all(_died_unnoticed(r, m, c["t"]) for m in missing):
                 fails.append((f"t={c['t']}: served pair(s) {missing} have no watch: the watcher exited on HTTP 404 and no revision of the "
                               "insights followed, so no pass has replaced it", F6_SIG))
             elif not extra and not dup and missing and all(m[0] in r.get("not_found", []) for m in missing):
@@ -932,7 +938,7 @@ def oracle_operator(sc: dict, r: dict) -> list[tuple[str, dict]]:
                 elif not pair_open and SCOPE[plural] and ns is not None and _recreated(sc, ns):
                     fails.append((f"{plural}/{ns}/{name} is at version {rv}, never handled: its re-created namespace is not served", F7_SIG))
                 elif (plural, ns if SCOPE[plural] and ok_ns is not None else None) not in open_now and plural in r.get("not_found", []) and \
-                        not any(p[0] >= r["not_found_at"][plural] for p in r.get("passes", [])):
+                        _died_unnoticed(r, (plural, ns if SCOPE[plural] and ok_ns is not None else None), last["t"]):
                     fails.append((f"{plural}/{ns}/{name} is at version {rv}, the last version a handler saw is {seen.get((plural, ns, name))}: "
                                   "its watcher exited on HTTP 404 and no pass of adjust_tasks has run since", F6_SIG))
                 elif plural in r.get("not_found", []) and (plural, ns if SCOPE[plural] else None) not in \
